@@ -34,11 +34,25 @@ Core Lean only (the compiled driver imports this file).
 import Kap.Basic
 namespace Kap.C08
 
-/-- `alert.EventState` restricted to what the property observes. Levels: OK=0 < Info=1 < Warning=2 < Critical=3. -/
+/-- Everything an `alert.EventState` carries besides its id and level: `Time`, `Duration`, `Message`, `Details`.
+The service never looks inside (it stores, restores and hands on the whole state), so the model passes it around as
+one value — the field of `ES`/`Ev`/`Op` that holds it is still called `time`. A numeral `n` stands for the payload
+with `Time = n` and everything else empty. How the four parts are laid down in a Bolt record (JSON, empty parts
+omitted) and read back is modelled in Kap/Model/C08Rec.lean. -/
+structure Payload where
+  time : Int
+  duration : Int := 0
+  message : String := ""
+  details : String := ""
+deriving DecidableEq, Repr, Inhabited
+
+instance : OfNat Payload n := ⟨{ time := n }⟩
+
+/-- `alert.EventState`. Levels: OK=0 < Info=1 < Warning=2 < Critical=3. -/
 structure ES where
   id : String
   level : Nat
-  time : Int
+  time : Payload
 deriving DecidableEq, Repr, Inhabited
 
 /-- topic → event id → state: used both for the Bolt namespace `topic_states_store` and for `alert.Topics`. -/
@@ -67,7 +81,7 @@ structure Ev where
   topic : String
   id : String
   level : Nat
-  time : Int
+  time : Payload
 deriving DecidableEq, Repr, Inhabited
 
 structure Svc where
@@ -122,8 +136,8 @@ def updateMicros (T : String) (e : ES) : List Micro := [.mem T e, .txPut T e]
 
 /-- Operations on the alert service. -/
 inductive Op where
-  | collect (T id : String) (level : Nat) (time : Int)
-  | update (T id : String) (level : Nat) (time : Int)
+  | collect (T id : String) (level : Nat) (time : Payload)
+  | update (T id : String) (level : Nat) (time : Payload)
   | closeTopic (T : String)
   | restoreTopic (T : String)
   | deleteTopic (T : String)
@@ -239,7 +253,7 @@ def emits (cfg : Cfg) (cur l : Nat) : Bool :=
 
 /-- All sub-steps of one point `(id, level, time)` reaching the alert node (`NewGroup` on the first point of the
 id since the node started, then `alertState.Point`). They are determined by the state at the start of the point. -/
-def plan (cfg : Cfg) (w : World) (id : String) (l : Nat) (t : Int) : List NMicro :=
+def plan (cfg : Cfg) (w : World) (id : String) (l : Nat) (t : Payload) : List NMicro :=
   let (cur, fix) := match w.groups id with
     | some c => (c, [])
     | none => restoreEvent cfg w.svc id
@@ -247,7 +261,7 @@ def plan (cfg : Cfg) (w : World) (id : String) (l : Nat) (t : Int) : List NMicro
     (if emits cfg cur l then (emitMicros cfg { id := id, level := l, time := t }).map .svc else [])
 
 inductive NOp where
-  | point (id : String) (level : Nat) (time : Int)
+  | point (id : String) (level : Nat) (time : Payload)
   | taskRestart           -- graceful stop + start of the task (no process death)
 deriving Repr, Inhabited, DecidableEq
 
